@@ -110,7 +110,22 @@ pub fn gen(seed: u64, thorough: bool) {
         if rng.chance(0.2) {
             lines.insert(rng.below(n + 1), String::new());
         }
-        let (sr, fp) = (48000usize, 240usize);
+        if rng.chance(0.15) {
+            // no corruption: time-stamped lines (some stamped, some not) with blank lines in between
+            lines = src.labels(&mut rng, n, rc);
+            let mut t = 0u64;
+            let mut out = Vec::new();
+            for l in &lines {
+                let len = rng.range(1, 40) as u64 * 50000;
+                if rng.chance(0.4) { out.push(String::new()); }
+                out.push(if rng.chance(0.8) { format!("{} {} {}", t, t + len, l) } else { l.clone() });
+                t += len;
+            }
+            if rng.chance(0.5) { out.push(String::new()); }
+            lines = out;
+            kinds = vec!["timed-with-blanks"];
+        }
+        let (sr, fp) = *rng.pick(&[(48000usize, 240usize), (44100, 220), (16000, 80), (48000, 256)]);
         let mut line = format!("lines {} {} {} {}", kinds.join("+"), sr, fp, lines.len());
         for l in &lines {
             push_s(&mut line, &esc(l));
@@ -131,6 +146,8 @@ pub fn gen(seed: u64, thorough: bool) {
             Ok(Ok(l)) => {
                 push_s(&mut line, "ok");
                 push_u(&mut line, l.labels().len());
+                push_u(&mut line, l.times().len());
+                for (a, b) in l.times() { push_f(&mut line, *a); push_f(&mut line, *b); }
             }
             Ok(Err(e)) => push_s(&mut line, match e {
                 LabelError::JLabelParse(_) => "err:jlabel",
